@@ -8,6 +8,7 @@ pub mod c04;
 pub mod c05;
 pub mod c14;
 pub mod chat;
+pub mod reg;
 
 pub fn threads() -> usize {
     std::env::var("VERIF_THREADS")
@@ -31,6 +32,7 @@ pub fn plan(property: &str, tier: &str) -> Option<Plan> {
         "C04" => Some(c04::plan(quick)),
         "C05" => Some(c05::plan(quick)),
         "C14" => Some(c14::plan(quick)),
+        "C02" | "C03" => Some(reg::plan(property, quick)),
         "C01" | "C07" | "C08" | "C09" | "C10" | "C15" | "C16" => Some(chat::plan(property, quick)),
         _ => None,
     }
